@@ -391,6 +391,28 @@ func genC17(r *Run) {
 				}
 			}
 		}
+		// values longer than one instance can carry (they travel split and arrive joined): every length around 255/256
+		// and 510/512, where a count kept in one octet wraps
+		for _, n := range []int{248, 250, 251, 252, 253, 254, 255, 256, 257, 258, 259, 260, 261, 262, 263, 264, 265, 266, 267, 268, 270, 272, 280, 300, 315, 320, 508, 510, 511, 512, 513, 515, 516, 520} {
+			v := r.valueFor(a.id, n)
+			run(true, v)
+			if len(v) > n {
+				run(true, v[:n])
+			}
+		}
+		if a.id == 17 {
+			// well-formed route lists of 28..64 routes of one width each: total lengths 140 .. 576, every remaining
+			// length around 256 occurs at some route boundary
+			for _, w := range []int{0, 8, 12, 16, 24, 25, 32} {
+				for k := 28; k <= 64; k++ {
+					var v []byte
+					for j := 0; j < k; j++ {
+						v = append(append(append(v, byte(w)), r.Bytes((w+7)/8)...), r.Bytes(4)...)
+					}
+					run(true, v)
+				}
+			}
+		}
 		fills := r.N(4, 40)
 		for n := 0; n <= 64; n++ {
 			if n >= 6 {
